@@ -198,6 +198,9 @@ def run(ctx: Ctx):
     # dict displays whose values are nested lists / tuples vs Model/DictAssign.v
     from .. import dictassign as da
     da.check_part(ctx, 200 if not ctx.thorough else 3000, "C02")
+    # lists / tuples / dict displays / constructor calls nested in each other at any depth vs Model/Nest.v
+    from .. import nestassign as na
+    na.check_part(ctx, 400 if not ctx.thorough else 5000, "C02", unm_choices=(0, 0, 0, 0.2))
     # real sessions
     sp = [gen_prog(ctx.rng, i) for i in range(SESSION_PROGS if not ctx.thorough else 80)]
     for p, o in zip(sp, tmap(run_session_pair, sp)):
@@ -224,6 +227,9 @@ def run(ctx: Ctx):
 
 
 def replay(ctx: Ctx, data):
+    if isinstance(data.get("case"), dict) and data["case"].get("kind") == "nest":
+        from .. import nestassign as na
+        return na.replay_case(data["case"])
     if isinstance(data.get("case"), dict) and data["case"].get("kind") in ("dict", "dict-orders"):
         from .. import dictassign as da
         return da.replay_case(data["case"])
